@@ -5,6 +5,7 @@ import (
 	"go/constant"
 	"go/token"
 	"go/types"
+	"golang.org/x/tools/go/cfg"
 	"strings"
 )
 
@@ -197,4 +198,95 @@ func checkGenderTables(c *Check) {
 		}
 		r.Decide(exh && bad == "", key, fi.Decl.Pos(), "yields "+strings.Join(got, ",")+" ⊆ {"+rw.allowed+"}", "the article table yields "+bad+" for "+rw.article+", which German grammar does not allow (allowed: "+rw.allowed+"): a wrong article is accepted")
 	}
+}
+
+// R4.3b: in the resolver, whenever InsertDecl reports that the name already existed, a diagnostic is emitted before the
+// function (or literal) is left - on EVERY path (must-dataflow on go/cfg: the fact "nothing pending" is lost on the
+// existed-edge and regained at an error call). A narrowed condition between the test and the report (an added early
+// return) lets a clashing declaration through silently.
+func checkRedeclarationAlwaysReported(c *Check) {
+	L := c.L
+	r := c.Rule("R4.3b", "in the resolver a name that already existed is reported on every path", 5)
+	rp := L.ByRel["src/parser/resolver"]
+	if rp == nil {
+		r.Und("src/parser/resolver", token.NoPos, "package not loaded")
+		return
+	}
+	info := rp.TypesInfo
+	L.ForEachFunc([]string{"src/parser/resolver"}, func(fi *FuncInfo) {
+		ast.Inspect(fi.Decl.Body, func(n ast.Node) bool {
+			call, ok := n.(*ast.CallExpr)
+			if !ok {
+				return true
+			}
+			fn := Callee(info, call)
+			if fn == nil || !nameIs(fn, "InsertDecl") {
+				return true
+			}
+			// the variable the result is bound to
+			var existed types.Object
+			if as, ok := parentOf(fi.Decl.Body, call).(*ast.AssignStmt); ok && len(as.Lhs) == 1 {
+				if id, ok := as.Lhs[0].(*ast.Ident); ok {
+					existed = info.Defs[id]
+					if existed == nil {
+						existed = info.Uses[id]
+					}
+				}
+			}
+			body := fi.Decl.Body
+			if fl := enclosingFuncLit(fi.Decl.Body, call); fl != nil {
+				body = fl.Body
+			}
+			g := L.CFGBody(fi.Pkg, body)
+			isExisted := func(e ast.Expr) bool {
+				e = ast.Unparen(e)
+				if e == ast.Expr(call) {
+					return true
+				}
+				id, ok := e.(*ast.Ident)
+				return ok && existed != nil && info.Uses[id] == existed
+			}
+			mf := &mustFlow{G: g, Init: 1, Transfer: func(n ast.Node, s uint32) uint32 {
+				callsIn(n, func(c2 *ast.CallExpr) {
+					if f2 := Callee(info, c2); f2 != nil && (nameIs(f2, "err") || nameIs(f2, "errVal")) {
+						s |= 1
+					}
+				})
+				return s
+			}, Edge: func(b *cfg.Block, i int, s uint32) uint32 {
+				if len(b.Nodes) == 0 {
+					return s
+				}
+				cond, ok := b.Nodes[len(b.Nodes)-1].(ast.Expr)
+				if !ok {
+					return s
+				}
+				cond = ast.Unparen(cond)
+				inv := false
+				if u, ok := cond.(*ast.UnaryExpr); ok && u.Op == token.NOT {
+					inv = true
+					cond = ast.Unparen(u.X)
+				}
+				// existed, or a conjunction that starts with it (`existed && ...` is judged on its first operand: the
+				// remaining operands narrow the report and are exactly what this rule is about)
+				if isExisted(cond) && (i == 0) != inv {
+					return s &^ 1
+				}
+				return s
+			}}
+			mf.Run()
+			okAll, sawExit := true, false
+			for _, b := range g.Blocks {
+				if !b.Live || len(b.Succs) != 0 {
+					continue
+				}
+				sawExit = true
+				if mf.StateAt(b, len(b.Nodes))&1 == 0 {
+					okAll = false
+				}
+			}
+			r.Decide(okAll && sawExit, L.QName(fi.Obj)+"|existing name reported", call.Pos(), "every path on which InsertDecl found the name already declared passes an error report", "there is a path on which InsertDecl found the name already declared and the function is left without a diagnostic: a clashing declaration (e.g. the same public name imported from two modules) is dropped silently and uses bind to the first one")
+			return true
+		})
+	})
 }
